@@ -337,3 +337,5 @@ def patch_modules(sim):
             m.queue = fq
         if hasattr(m, 'threading'):
             m.threading = fth
+        if mn.endswith('j1939_22'):
+            m.print = lambda *a, **k: None      # the module reports unsupported multi-PG formats with print()
